@@ -108,8 +108,11 @@ def mlOracle (s : StreamIn Float) (durs : List Nat) (thr : Float) (rows : List (
                 let j := t + k - lw
                 grad := grad.set! j (grad[j]! + p * win[k]! * r)
                 scale := scale.set! j (scale[j]! + fabs (p * win[k]! * g.mean) + fabs (p * win[k]! * dot))
+    -- a frame whose own terms all vanish (exactly-zero means) still carries the rounding error of its neighbours:
+    -- the tolerance has a floor relative to the largest term of the column
+    let top := scale.foldl (fun a x => if x > a then x else a) 0.0
     for t in [0:T] do
-      if voiced[t]! && fabs grad[t]! > 1e-8 * scale[t]! then
+      if voiced[t]! && fabs grad[t]! > 1e-8 * scale[t]! + 1e-12 * top then
         return some s!"normal equations not satisfied at frame {t} dim {m}: residual {grad[t]!} (scale {scale[t]!})"
   return none
 
